@@ -24,6 +24,10 @@ func (cx *c20Ctx) onceEP(fi *FuncInfo, sep string) {
 		r.Bad(c, a.whyAt.Pos(), "%s: one call of %s can issue several GETs", strings.TrimPrefix(a.why, "loop:"), fi.Name())
 		return
 	}
+	if a := run.panicAbort(); a != nil {
+		r.Bad(c, a.whyAt.Pos(), "%s: %s must issue exactly one GET for every argument, including an empty id list", strings.TrimPrefix(a.why, "panic:"), fi.Name())
+		return
+	}
 	if why, a := run.abortText(cx); why != "" {
 		r.Unknown(c, a.whyAt.Pos(), "%s could not be executed symbolically: %s", fi.Name(), why)
 		return
